@@ -65,6 +65,12 @@ Proof. exact source_recover. Qed.
 Theorem C15_source_lookups_deferred : forallb (fun e => lookups_deferred (snd e)) handler_traces = true.
 Proof. exact HandlerGen_lookups_deferred. Qed.
 
+(** locks: every Lock/RLock site of handlers.go, path_tree.go and the fid-table functions of server.go
+    is released by a deferred unlock, or has no call that can fail between Lock and Unlock; so a
+    request that ends in a panic (any backend call, any index) holds nothing afterwards *)
+Theorem C15_locks_released : locks_released = true /\ lock_sites = lock_sites_expected.
+Proof. split; [exact HandlerGen_locks_released|exact HandlerGen_lock_sites]. Qed.
+
 (** satisfiable: a panic in the second component of a walk *)
 Example C15_example :
   let s := state_of (step init_state 0 (Tattach 0 p9_noFID "u" "" 0) [AVal v0 []; AVal (mkV [1] true p9_ModeDirectory 0 []) []]) in
